@@ -3,6 +3,7 @@ import Secp.Proofs.LadderTies
 import Secp.Proofs.LimbGroup
 import Secp.Proofs.ScalarApiTiesTests
 import Secp.Proofs.BitsSpec
+import Secp.Proofs.ElementMulTies
 /-!
 # C01 — scalar multiplication equals k-fold addition for every scalar and point
 
@@ -49,14 +50,30 @@ theorem C01_full (P : Pt L4) (hP : Valid P) (s : L4) (hs : sOk s) :
     exact ZMod.val_one Spec.N
   · exact (bits_spec s hs).2.2
 
+/-- **C01 for the `Multiply` regenerated from `element.go` on this run** (`GenElementMul.element_multiply`: the nil test, the
+`IsOne` shortcut, `newElement()`, `e.copy()`, `s.Bits()`, the loop `for i := 255; i >= 0; i--` with the index read `bits[i]`
+and both branches over the regenerated `Add`/`Double`, `e.set(r0)` — every step that could panic is an `Option` step): it
+never panics, a nil scalar gives the identity, and a canonical scalar `s` gives `[k]P` with `k` the canonical value of `s` -/
+theorem multiply_regenerated (P : Pt L4) (hP : Valid P) (s : L4) (hs : sOk s) :
+    ∃ R, GenElementMul.element_multiply F P (some s) = some R ∧ Valid R ∧ G R = (sVal s).val • G P :=
+  ⟨multiply F P (some s), ElementMulTies.multiply_tie F P (some s), C01_full P hP s hs⟩
+
+theorem multiply_regenerated_nil (P : Pt L4) :
+    ∃ R, GenElementMul.element_multiply F P none = some R ∧ G R = 0 :=
+  ⟨multiply F P none, ElementMulTies.multiply_tie F P none, by rw [multiply_nil]; exact toGp_identity limbLawful curveOK_Fp⟩
+
+/-- the regenerated `Multiply` equals the model for every representation type and every (possibly nil) scalar -/
+theorem multiply_tied {α : Type} (F : FieldOps α) (e : Pt α) (k : Option L4) :
+    GenElementMul.element_multiply F e k = some (multiply F e k) := ElementMulTies.multiply_tie F e k
+
 /-- a nil scalar yields the identity -/
 theorem C01_nil (P : Pt L4) : G (multiply F P none) = 0 := by
   rw [multiply_nil]; exact toGp_identity limbLawful curveOK_Fp
 
-/-- the loop in `Scalar.Bits` covers all 256 positions and its body is the shift-and-mask of the model
-(read from the source by `go2lean` on every run) -/
+/-- the loop in `Scalar.Bits` covers all 256 positions (read from the source by `go2lean` on every run; the body of the loop is
+regenerated statement by statement, see `C14.bits_regenerated`) -/
 theorem bits_loop_covers_all_positions :
-    Facts.bitsLoopBound = 256 ∧ Facts.bitsLoopBody = "{ out[i] = uint8((n[i/64] >> (i % 64)) & 1) }" := by decide
+    Facts.bitsLoopBound = 256 := by decide
 
 example : Valid Hand.ElementL.base := base_valid
 example : Valid (identity F) := identity_valid limbLawful
@@ -68,7 +85,7 @@ theorem isOne_tied (s : L4) : GenScalarAPI.isOne s = Hand.Scalar.isOne s := Scal
 shared cells), is the ladder step the invariant is proved about -/
 theorem ladder_tied {α : Type} (F : FieldOps α) (st : Pt α × Pt α) (bit : Nat) :
     Hand.Element.ladderStep F st bit = (if bit = 0 then GenLadder.branchThen F st.1 st.2 else GenLadder.branchElse F st.1 st.2) ∧
-    GenLadder.loopHeader = "i := 255; i >= 0; i--" ∧ GenLadder.branchCondition = "bits[i] == 0" :=
-  ⟨LadderTies.ladderStep_tie F st bit, LadderTies.loop_shape.1, LadderTies.loop_shape.2.1⟩
+    GenLadder.loopHeader = "i := 255; i >= 0; i--" :=
+  ⟨LadderTies.ladderStep_tie F st bit, LadderTies.loop_shape⟩
 
 end C01
